@@ -25,6 +25,8 @@ def main():
     prop, src = sys.argv[1], os.path.abspath(sys.argv[2])
     extra = sys.argv[3:]
     slug = os.path.basename(src.rstrip("/"))
+    if os.path.dirname(src.rstrip("/")) == os.path.join(VERIF, "seeded") and slug.startswith(prop + "-"):
+        slug = slug[len(prop) + 1:]  # re-evaluation of an already kept change, in place
     out = os.path.join(VERIF, "seeded", "%s-%s" % (prop, slug))
     os.makedirs(out, exist_ok=True)
     patch = os.path.join(src, "patch.diff")
@@ -53,6 +55,15 @@ def main():
             if m:
                 run_pat = m.group(1)
         meta["demo_run_pattern"] = run_pat
+        if os.path.exists(readme):
+            import re
+            txt = open(readme).read()
+            m = re.search(r"^#+[^\n]*needs[^\n]*\n(.*?)(?=^#+ |\Z)", txt, re.S | re.M | re.I)
+            if m:
+                meta["needs_to_manifest"] = " ".join(m.group(1).split())[:1500]
+            m = re.search(r"^#+[^\n]*(clause|property)[^\n]*\n(.*?)(?=^#+ |\Z)", txt, re.S | re.M | re.I)
+            if m:
+                meta["clause_broken"] = " ".join(m.group(2).split())[:1000]
         demo_cmd = "go test -count=1 -vet=off -run '%s' ./vgirpc/" % run_pat
         rc0, o0 = sh(demo_cmd, cwd=wt)
         meta["demo_without_change"] = "pass" if rc0 == 0 else "FAIL"
@@ -71,11 +82,16 @@ def main():
                     shutil.rmtree(p)
                 else:
                     os.remove(p)
-            rc2, o2 = sh("go build ./... && go test -count=1 -vet=off ./vgirpc/", cwd=wt)
+            suite = "go build ./... && go test -count=1 -vet=off -timeout 25m ./..."
+            ptxt = open(patch).read()
+            for sub in ("otel", "s3", "gcs", "jwtauth", "sentry"):
+                if ("a/vgirpc/%s/" % sub) in ptxt:
+                    suite += " && (cd vgirpc/%s && go build ./... && go test -count=1 -vet=off ./...)" % sub
+            rc2, o2 = sh(suite, cwd=wt)
             meta["suite_with_change"] = "pass" if rc2 == 0 else "FAIL"
             if rc2 != 0:
                 meta["suite_output_tail"] = o2[-1500:]
-            meta["ran"].append("go build ./... && go test -count=1 -vet=off ./vgirpc/ (with change) -> exit %d" % rc2)
+            meta["ran"].append(suite + " (with change) -> exit %d" % rc2)
             meta["checks"] = {}
             for p in [prop] + extra:
                 t0 = time.time()
@@ -84,14 +100,15 @@ def main():
                 lines = [l for l in oc.splitlines() if l.startswith("VIOLATION") or l.startswith("  class=") or l.startswith("OK ") or l.startswith("KNOWN") or "HARNESS" in l]
                 meta["checks"][p] = {"exit": rcc, "wall_s": round(time.time() - t0, 1), "output": [l[:400] for l in lines[:8]]}
                 meta["ran"].append("VERIF_REPO=<worktree with change> ./check %s quick -> exit %d" % (p, rcc))
-        shutil.copy(patch, os.path.join(out, "patch.diff"))
-        for d in demos:
-            if os.path.isdir(d):
-                shutil.copytree(d, os.path.join(out, os.path.basename(d)), dirs_exist_ok=True)
-            else:
-                shutil.copy(d, os.path.join(out, os.path.basename(d)))
-        if os.path.exists(readme):
-            shutil.copy(readme, os.path.join(out, "README.md"))
+        if os.path.realpath(out) != os.path.realpath(src):
+            shutil.copy(patch, os.path.join(out, "patch.diff"))
+            for d in demos:
+                if os.path.isdir(d):
+                    shutil.copytree(d, os.path.join(out, os.path.basename(d)), dirs_exist_ok=True)
+                else:
+                    shutil.copy(d, os.path.join(out, os.path.basename(d)))
+            if os.path.exists(readme):
+                shutil.copy(readme, os.path.join(out, "README.md"))
         ok = meta.get("patch_applies") and meta.get("demo_without_change") == "pass" and meta.get("demo_with_change") == "fail" and meta.get("suite_with_change") == "pass"
         meta["confirmed"] = bool(ok)
         meta["caught_by"] = [p for p, v in meta.get("checks", {}).items() if v["exit"] == 1]
